@@ -1,2 +1,17 @@
 #!/bin/sh
+# Build everything once from files on disk (offline): generated Lean data, all property
+# modules + model drivers, all harness binaries.  Every check rebuilds incrementally.
+set -u
+cd /verif
+export CARGO_NET_OFFLINE=true
+mkdir -p evidence replays .work
+for g in tools/gen/C*.py; do [ -f "$g" ] && (cd tools/gen && python3 "$(basename "$g")") ; done
+cd /verif/lean
+mods=""; for f in MvProps/C*.lean; do [ -f "$f" ] && mods="$mods MvProps.$(basename "$f" .lean)"; done
+drvs=""; for f in MvDrv/C*.lean; do [ -f "$f" ] && drvs="$drvs drv_$(basename "$f" .lean | tr 'C' 'c')"; done
+lake build $mods $drvs 2>&1 | tail -5
+cd /verif/harness
+cp -f /repo/Cargo.lock Cargo.lock 2>/dev/null || true
+cargo build --offline --bins 2>&1 | tail -3
+if ls src/bin | grep -q '^c29.rs$'; then cargo build --offline --features encryption --bin c29 2>&1 | tail -1; fi
 exit 0
